@@ -19,6 +19,12 @@ CHECKS = {
  "C19": ("engine-a", "model_checking", A,
          "the C01/C02 scenario histories run with a CallbackListener registered before the seed is built: a shadow model updated only from notifications equals the real structure after every call; at notification time the announced change is not yet visible; every transition re-executed without listeners gives the same outcome and state",
          "bounded as C01; shadow may read the real pre-state at notification time; redundant re-announcements tolerated; order inside containers not mirrored"),
+ "C08": ("engine-b", "model_checking", B,
+         "every design of the F_hier family (skeletons with sharing at one/two depths, wire-only cells, bus ports; every wiring partition of each definition's endpoints; variants dangling nets / instance outside the top hierarchy / two libraries / pre-existing clashing names) is uniquified; independent elaboration before == after (path tree, leaf types, partition of leaf pin bits and top port bits), reference-set sizes along every path, well-formedness, library/name of new definitions, idempotence",
+         "bounded: depth <= 3, fan-out <= 2, widths <= 2; trusted: vlib/elab.py (union-find elaborator over the public read API), vlib/wf.py"),
+ "C09": ("engine-b", "model_checking", B,
+         "every design of the F_hier family is uniquified and flattened; the flattened top definition is read directly and compared with the independent elaboration of the original: one leaf per leaf path named by the slash-joined path, same leaf definition and data, no hierarchical instance left, identical partition of leaf pin bits and top port bits, well-formedness",
+         "bounded as C08; instance data compared apart from .NAME/EDIF.identifier which flattening rewrites"),
 }
 m = {
  "version": 1,
